@@ -5,7 +5,29 @@ COMMON_ASSUME = [
     "debug-profile semantics (overflow checks on), 64-bit little-endian host",
 ]
 
+from extras import pod_features
+
 PROPS = {
+    "C13": {
+        "lean_module": "SplProofs.C13",
+        "streams": ["C13"],
+        "extra": [pod_features],
+        "rule": "stream pod: bool byte / u16 / i16 exhaustively, boundary+random u32/u64/i64/u128 (each compared with to_le_bytes and with the primitive's own "
+                "borsh/serde_json/wincode encoding), byte casts and slice casts of every length 0..64 for every Pod type (aliasing checked by pointer), "
+                "usize conversions around every width boundary; non-trivial = value not in {0,1,-1} / non-empty cast input; plus cargo check of spl-pod feature subsets "
+                "(quick: none, bytemuck, all; thorough: all 16)",
+        "trusted": ["borsh / serde_json / wincode / bytemuck are modelled (expected encoding = little-endian bytes, decimal text, true/false) and validated by the stream"],
+        "assumptions": COMMON_ASSUME + ["Pod integer types are align-1 wrappers of [u8; k] (checked by the cast stream at arbitrary addresses)"],
+    },
+    "C14": {
+        "lean_module": "SplProofs.C14",
+        "streams": ["C14"],
+        "rule": "stream podoption: T = Address (none value, all 256 single-bit patterns, values differing from the none marker only in a late byte, random) and "
+                "a 64-bit wrapper with 0 as none; Option, COption, From<T>, byte cast, Borsh, Serde (incl. JSON of Some(none-value) fed to the deserialiser); "
+                "non-trivial = wrapped value differs from the none value",
+        "trusted": ["borsh / serde_json encodings of the wrapped value are modelled as the identity wrapper and validated by the stream"],
+        "assumptions": COMMON_ASSUME,
+    },
     "C16": {
         "lean_module": "SplProofs.C16",
         "streams": ["C16"],
